@@ -126,6 +126,14 @@ claimed = {
          "and a finished kernel returns the device named by the message, once, decrementing the unfinished count; the SM does the same for warps and sub-cores. Trace parsing, the GPU/sub-core levels and termination are not under contract."),
    note=(TB + "akita ports/components and the logging library are external. Termination and exactly-once over whole runs need an argument over message interleavings that this technique does not mechanise."),
    design="5 (C20)", technique="deductive verification: WP-style VC generation over go/ssa + SMT (pre/postconditions of the step functions)"),
+
+ "C18": dict(
+   text=("Under contract: distributorImpl.Distribute (mathematical integers, page sizes 2^12..2^16): the remapped windows are consecutive, window i of the first numGPUsToUse GPUs starts at page i*numPagesPerGPU, the remainder pages follow one by one on the last GPU used, "
+         "no window reaches beyond the buffer's pages and together they cover exactly numPages pages (site obligations at both Remap calls and at the return); "
+         "the RDMA engine consumes a reply from the owning GPU only after the requester-side port accepted the copy (processRspFromRDMARequestOutside). The unified-device work-group ranges are proved under C08 (distributeWGToGPUs). "
+         "Multi-GPU result equivalence as a whole, page migration ordering and the RDMA request path are not under contract."),
+   note=(TB + "The allocator behind its interface, akita ports and the RDMA component's transaction scan are external (extern declarations)."),
+   design="5 (C18)", technique="deductive verification: WP-style VC generation over go/ssa + SMT (integer mode with overflow obligations, call-site obligations)"),
 }
 reasons = {
  "C01": "subject is GPU machine code vs a host reference over the whole platform matrix; no contract on a Go function states it (its contract-reachable mechanisms are claimed under C03/C04/C06/C07/C08/C11/C13)",
